@@ -224,7 +224,7 @@ func c05Case(w *core.Worker, i int) {
 		}
 		t := tabs[names[r.Intn(len(names))]]
 		tn := t.Name
-		switch r.Intn(12) {
+		switch r.Intn(13) {
 		case 0, 1: // INSERT VALUES (all columns)
 			var rowsSQL []string
 			cnt := r.Range(1, 3)
@@ -338,6 +338,32 @@ func c05Case(w *core.Worker, i int) {
 				}
 			}
 			steps = append(steps, step{fmt.Sprintf("UPDATE t SET t.%s = u.%s FROM t JOIN u ON t.id = u.id;", a.Cols[ac], b.Cols[bc]), cnt, cnt > 0, nil})
+		case 11: // one UPDATE with two target tables: every assignment lands in the row of ITS table that took part in the joined row
+			a, b := tabs["t"], tabs["u"]
+			ac, bc := otherCol(r, a), otherCol(r, b)
+			if ac < 0 || bc < 0 || !uniqueIDs(a) || !uniqueIDs(b) {
+				continue
+			}
+			ai, bi := a.col("id"), b.col("id")
+			off := r.Range(0, 2)
+			cnt := 0
+			for _, row := range a.Rows {
+				x, ok := cellRV(row[ai]).asIntStrict()
+				if !ok {
+					continue
+				}
+				for _, ur := range b.Rows {
+					if y, ok2 := cellRV(ur[bi]).asIntStrict(); ok2 && x == y+int64(off) {
+						row[ac], ur[bc] = core.Sp("mt!"), core.Sp("mu!")
+						cnt++
+						break
+					}
+				}
+			}
+			steps = append(steps, step{fmt.Sprintf("UPDATE t, u SET t.%s = 'mt!', u.%s = 'mu!' FROM t JOIN u ON t.id = u.id + %d;", a.Cols[ac], b.Cols[bc], off), -1, cnt > 0, nil})
+			if cnt > 0 {
+				w.Count("updates_with_two_target_tables", 1)
+			}
 		case 7: // DELETE
 			p := genPred(r, t, 2)
 			var keep [][]*string
